@@ -36,7 +36,7 @@ const rtPath = "verif/rt"
 
 // rebind: original package path -> identifier -> shim package path
 var rebind = map[string]map[string]string{
-	"sync":        {"Mutex": "verif/shim/vsync", "RWMutex": "verif/shim/vsync", "WaitGroup": "verif/shim/vsync", "Once": "verif/shim/vsync"},
+	"sync":        {"Mutex": "verif/shim/vsync", "RWMutex": "verif/shim/vsync", "WaitGroup": "verif/shim/vsync", "Once": "verif/shim/vsync", "Pool": "verif/shim/vsync"},
 	"net":         {"Listen": "verif/shim/vnet", "DefaultResolver": "verif/shim/vnet", "ListenConfig": "verif/shim/vnet"},
 	"context":     {"WithCancel": "verif/shim/vctx", "WithTimeout": "verif/shim/vctx", "WithDeadline": "verif/shim/vctx"},
 	"time":        {"Now": "verif/shim/vtime", "Sleep": "verif/shim/vtime", "Since": "verif/shim/vtime", "Until": "verif/shim/vtime", "After": "verif/shim/vtime", "AfterFunc": "verif/shim/vtime"},
